@@ -422,6 +422,21 @@ func c16Case(r *obs.Run, i int) {
 				return
 			}
 			r.Count("piles_checked", int64(len(gp)))
+			// the answer is the caller's: its image lists are rewritten in place (same length) before the next call,
+			// which has to report the piles from the piler's own state again
+			if rng.Intn(2) == 0 {
+				for _, pl := range got {
+					for k := range pl.Images {
+						switch rng.Intn(3) {
+						case 0:
+							pl.Images[k] = pl.Images[k].Mate()
+						case 1:
+							pl.Images[k] = pl.Images[rng.Intn(len(pl.Images))]
+						}
+					}
+				}
+				r.Count("answers_rewritten_by_the_caller", 1)
+			}
 		}
 		// every added feature: location is a pile (even if filtered out), mates intact
 		for _, fp := range added {
